@@ -1,54 +1,90 @@
 ----------------------------- MODULE Trace_Node -----------------------------
 (***************************************************************************)
-(* Trace validation of harness traces (any number of nodes, any driver):   *)
-(* one-step conformance of every recorded call against FocaNode!Step.      *)
-(* TRACE=<file.ndjson> in the environment.                                 *)
+(* Trace validation of harness traces (any number of nodes, any driver).   *)
+(*   - one-step conformance of every recorded call against FocaNode!Step   *)
+(*     (unless NOCONF=1)                                                   *)
+(*   - the property monitors selected by MON_Cxx=1, evaluated at every     *)
+(*     step on what the code really did                                    *)
+(* Environment: TRACE=<file.ndjson>                                        *)
 (***************************************************************************)
-EXTENDS TraceBase
+EXTENDS TraceBase, MonC08, MonC09, MonC10, MonC13, MonC19
+
+On(name) == name \in DOMAIN IOEnv /\ IOEnv[name] = "1"
 
 VARIABLES l,        \* next line of the trace
-          nodes,    \* node index -> specification state (observed post state)
-          dbg,      \* debug assertions compiled in (from the reset event)
-          ndiv,     \* number of diverging events so far
-          divs,     \* the first few divergences, [l, call, fields]
-          ncalls    \* number of call events validated
+          nodes,    \* node index -> [st, pub, hook] as last observed
+          env,      \* run parameters from the last reset event
+          mon,      \* node index -> monitor states
+          conf,     \* conformance bookkeeping [calls, ndiv, divs]
+          viol      \* monitor violations [n, list]
 
-vars == <<l, nodes, dbg, ndiv, divs, ncalls>>
+vars == <<l, nodes, env, mon, conf, viol>>
 
-MaxDivs == 8
+MaxList == 12
 
-Init == /\ l = 1 /\ nodes = <<>> /\ dbg = TRUE /\ ndiv = 0 /\ divs = <<>> /\ ncalls = 0
+EnvInit == [forge |-> FALSE, junk |-> FALSE, ordered |-> FALSE, dbg |-> TRUE, run |-> 0, driver |-> ""]
+
+Init == /\ l = 1 /\ nodes = <<>> /\ env = EnvInit /\ mon = <<>>
+        /\ conf = [calls |-> 0, ndiv |-> 0, divs |-> <<>>]
+        /\ viol = [n |-> 0, list |-> <<>>]
+
+MonInit == [C08 |-> C08Init, C09 |-> C09Init, C10 |-> C10Init, C13 |-> C13Init, C19 |-> C19Init]
+
+ObsOf(e, prev) ==
+    [node |-> e.node, call |-> e.call, args |-> e.args, res |-> e.res, out |-> e.out,
+     hlog |-> e.hlog, now |-> e.now,
+     pre |-> prev.pub, post |-> e.pub, hpre |-> prev.hook, hpost |-> e.hook, env |-> env]
+    @@ (IF HasField(e, "acc") THEN [acc |-> e.acc] ELSE <<>>)
+    @@ (IF HasField(e, "tag") THEN [tag |-> e.tag] ELSE <<>>)
+
+MonStep(m, o) ==
+    [C08 |-> IF On("MON_C08") THEN C08Step(m.C08, o) ELSE m.C08,
+     C09 |-> IF On("MON_C09") THEN C09Step(m.C09, o) ELSE m.C09,
+     C10 |-> IF On("MON_C10") THEN C10Step(m.C10, o) ELSE m.C10,
+     C13 |-> IF On("MON_C13") THEN C13Step(m.C13, o) ELSE m.C13,
+     C19 |-> IF On("MON_C19") THEN C19Step(m.C19, o) ELSE m.C19]
+
+MonViols(m) == [p \in DOMAIN m |-> m[p].v]
+
+NewViols(m, line, e) ==
+    LET ps == {p \in DOMAIN m : m[p].v # {}} IN
+    IF ps = {} THEN <<>>
+    ELSE <<[line |-> line, run |-> env.run, call |-> e.call,
+            v |-> [p \in ps |-> m[p].v]]>>
 
 Next ==
     /\ l <= Len(Rec)
     /\ l' = l + 1
     /\ LET e == Rec[l] IN
        CASE e.ev = "reset" ->
-              /\ nodes' = <<>>
-              /\ dbg' = (IF HasField(e, "dbg") THEN e.dbg ELSE TRUE)
-              /\ UNCHANGED <<ndiv, divs, ncalls>>
+              /\ nodes' = <<>> /\ mon' = <<>>
+              /\ env' = [f \in DOMAIN EnvInit |-> IF HasField(e, f) THEN e[f] ELSE EnvInit[f]]
+              /\ UNCHANGED <<conf, viol>>
          [] e.ev = "new" ->
-              /\ nodes' = (e.node :> AbsState(e, StaticOf(e))) @@ nodes
-              /\ UNCHANGED <<dbg, ndiv, divs, ncalls>>
+              /\ nodes' = (e.node :> [st |-> AbsState(e, StaticOf(e)), pub |-> e.pub, hook |-> e.hook]) @@ nodes
+              /\ mon' = (e.node :> MonInit) @@ mon
+              /\ UNCHANGED <<env, conf, viol>>
          [] e.ev = "call" ->
-              LET pre == nodes[e.node]
-                  d == Divergence(pre, e, dbg)
-              IN /\ ncalls' = ncalls + 1
-                 /\ ndiv' = IF d = {} THEN ndiv ELSE ndiv + 1
-                 /\ divs' = IF d = {} \/ Len(divs) >= MaxDivs THEN divs
-                            ELSE Append(divs, [line |-> l, call |-> e.call, fields |-> d])
-                 /\ nodes' = IF e.res = "Panic" THEN nodes
-                             ELSE (e.node :> AbsState(e, pre)) @@ nodes
-                 /\ UNCHANGED dbg
-         [] OTHER -> UNCHANGED <<nodes, dbg, ndiv, divs, ncalls>>
+              LET prev == nodes[e.node]
+                  d == IF On("NOCONF") THEN {} ELSE Divergence(prev.st, e, env.dbg)
+                  panic == e.res = "Panic"
+                  m1 == IF panic THEN mon[e.node] ELSE MonStep(mon[e.node], ObsOf(e, prev))
+                  nv == IF panic THEN <<>> ELSE NewViols(m1, l, e)
+              IN /\ conf' = [calls |-> conf.calls + 1,
+                             ndiv |-> IF d = {} THEN conf.ndiv ELSE conf.ndiv + 1,
+                             divs |-> IF d = {} \/ Len(conf.divs) >= MaxList THEN conf.divs
+                                      ELSE Append(conf.divs, [line |-> l, run |-> env.run, call |-> e.call, fields |-> d])]
+                 /\ viol' = [n |-> viol.n + Len(nv),
+                             list |-> IF Len(viol.list) >= MaxList THEN viol.list ELSE viol.list \o nv]
+                 /\ nodes' = IF panic THEN nodes
+                             ELSE (e.node :> [st |-> AbsState(e, prev.st), pub |-> e.pub, hook |-> e.hook]) @@ nodes
+                 /\ mon' = (e.node :> m1) @@ mon
+                 /\ UNCHANGED env
+         [] OTHER -> UNCHANGED <<nodes, env, mon, conf, viol>>
 
 Spec == Init /\ [][Next]_vars
 
-\* printed once at the end; the runner parses these lines
-Done ==
-    /\ PrintT(<<"TRACE-RESULT", [lines |-> Len(Rec), consumed |-> TLCGet("stats").diameter - 1]>>)
-    /\ TRUE
-
 AtEnd == l = Len(Rec) + 1
-Report == AtEnd => PrintT(<<"CONFORMANCE", ToJson([calls |-> ncalls, ndiv |-> ndiv, divs |-> divs])>>)
+Report == AtEnd => PrintT(<<"RESULT", ToJson([lines |-> Len(Rec), conf |-> conf, viol |-> viol])>>)
+Done == PrintT(<<"CONSUMED", TLCGet("stats").diameter - 1, Len(Rec)>>)
 =============================================================================
